@@ -2,6 +2,9 @@ module verif
 
 go 1.22
 
-require github.com/avfs/avfs v0.0.0
+require (
+	github.com/anishathalye/porcupine v1.3.0
+	github.com/avfs/avfs v0.0.0
+)
 
 replace github.com/avfs/avfs => /repo
